@@ -3,6 +3,7 @@ import LinOp.C06.Model
 import LinOp.C06.Postprocess
 /-! Line-protocol driver for the C06 model (no Mathlib).
   sel <root|rootinv|diag> <base|kron> <n1,n2,..> <maxChol> <maxRoot> <fast 0/1> <method|none> <cholOk 0/1> <cache: s d l bits e.g. 000>
+  cmul <root|rootinv> <base|kron> <pos 0/1> <n1,..> <maxChol> <maxRoot> <fast> <method|none> <cholOk of c·A> <cache>   ConstantMul override
   hist <n> <entry:method:maxChol:maxRoot:fast;…>   source (own | hit:i | side:i) of every result of a call history
   choose <n> <maxChol> <fast> <cache>
   kron <m> <n> <p> <q> <A> <B>          exact Kronecker product in the library's index order
@@ -115,6 +116,20 @@ def run (line : String) : String :=
           | some p => s!"ok cls=- prims={showPrims p}"
           | none => "error RuntimeError"
       | _, _, _ => "bad-op"
+    | _, _, _, _ => "bad-op"
+  | ["cmul", op, kind, pos, ns, mc, mr, fast, meth, cok, cache] =>
+    -- ConstantMul override: base outcome (dense / Kronecker base) re-wrapped, or the base-class outcome on the operator itself
+    match parseNats? ns, mc.toNat?, mr.toNat?, parseMethod? meth with
+    | some ns, some mc, some mr, some m =>
+      let c := mkCfg mc mr fast cache
+      let ok := cok = "1"
+      let N := prod ns
+      match op, kind with
+      | "root", "base" => showOutcome (constMulDelegate (pos = "1") (rootBase N c m true) (rootBase N c m ok))
+      | "rootinv", "base" => showOutcome (constMulDelegate (pos = "1") (rootInvBase N c m true) (rootInvBase N c m ok))
+      | "root", "kron" => showOutcome (constMulDelegate (pos = "1") (rootKron ns c m) (rootBase N c m ok))
+      | "rootinv", "kron" => showOutcome (constMulDelegate (pos = "1") (rootInvKron ns c m) (rootInvBase N c m ok))
+      | _, _ => "bad-op"
     | _, _, _, _ => "bad-op"
   | ["hist", n, calls] =>
     match n.toNat?, (calls.splitOn ";").mapM parseCall? with
